@@ -8,6 +8,7 @@ mod checks;
 mod eng_codec;
 mod eng_disk;
 mod eng_hist;
+mod eng_par;
 mod eng_rdf;
 mod eng_sched;
 mod eng_snap;
